@@ -198,8 +198,9 @@ def vm_desc(draw, t=None):
 
 
 @st.composite
-def str_desc(draw):
-    t = draw(st.sampled_from(["strexact", "strexact", "strglob", "strregex", "func", "strconv"]))
+def str_desc(draw, top=True):
+    # StrConversion has no restriction type: it cannot be a member of a boolean tree
+    t = draw(st.sampled_from(["strexact", "strexact", "strglob", "strregex", "func"] + (["strconv"] if top else [])))
     if t == "func":
         return {"t": t, "f": draw(st.sampled_from(sorted(FUNCS))), "neg": draw(_neg), "sp": draw(_sp)}
     if t == "strconv":
@@ -248,10 +249,7 @@ def dep_desc(draw):
 
 @st.composite
 def pkgr_desc(draw):
-    if draw(st.integers(0, 3)) == 0:
-        child = draw(vm_desc("vm"))
-        attr = "fullver"
-    elif draw(_b):
+    if draw(_b):
         child = draw(st.one_of(str_leaf(), bool_desc("str", 1)))
         attr = draw(st.sampled_from(STR_ATTRS))
     else:
@@ -268,9 +266,9 @@ def atom_desc(draw):
 
 def leaf(dom):
     if dom == "pkg":
-        return st.one_of(vm_desc(), dep_desc(), usedep_desc(), pkgr_desc(), atom_desc())
+        return st.one_of(vm_desc("VM"), dep_desc(), usedep_desc(), pkgr_desc(), atom_desc())
     if dom == "str":
-        return str_desc()
+        return str_desc(False)
     if dom == "coll":
         return contain_desc()
     raise ValueError(dom)
@@ -291,7 +289,9 @@ def bool_desc(draw, dom, depth):
 
 @st.composite
 def any_desc(draw):
-    k = draw(st.integers(0, 11))
+    k = draw(st.integers(0, 13))
+    if k >= 12:
+        return draw(vm_desc("vm"))  # the bare value restriction VersionMatch wraps; it takes the package itself
     if k <= 4:
         return draw(leaf("pkg"))
     if k <= 6:
